@@ -54,6 +54,8 @@ type c04Machine struct {
 	nRestarts, nReaps  int
 	nWrites, nRebuilds int
 	done               bool
+	loadDuringPersist  bool
+	nHandSnaps         int
 }
 
 func (m *c04Machine) fail(sig, format string, args ...any) {
@@ -239,7 +241,7 @@ func (m *c04Machine) restart(noSnapOnClose bool) {
 
 func TestVerif_C04_Rebuild(t *testing.T) {
 	rec := vstat.New(t, "C04", "rebuild",
-		"rapid state machine on a real single-node Store: small/page-heavy writes, user snapshots (default or 1 trailing log), snapshots whose persist raft skips (join/remove of a non-voter at an unused address just before), file loads, boots, explicit reaps, restarts; oracle = fresh Store on a copy of the data dir without SQLite file and fingerprint, after every snapshot-ish step and at the end; optional second node joining at the end; non-trivial = an incremental snapshot was persisted while an older staged WAL was retained, or a full snapshot/load/boot/restart happened after a retained staged WAL; distinct = hash of the whole history")
+		"rapid state machine on a real single-node Store: small/page-heavy writes, user snapshots (default or 1 trailing log), snapshots whose persist raft skips (join/remove of a non-voter at an unused address just before), snapshots taken in raft's order with a load or write applied between FSM.Snapshot and Persist, file loads, boots, explicit reaps, restarts; oracle = fresh Store on a copy of the data dir without SQLite file and fingerprint, after every snapshot-ish step and at the end; optional second node joining at the end; non-trivial = an incremental snapshot was persisted while an older staged WAL was retained, or a full snapshot/load/boot/restart happened after a retained staged WAL, or a load was applied while a snapshot was being persisted; distinct = hash of the whole history")
 	rapid.Check(t, func(rt *rapid.T) { c04Case(rt, rec) })
 }
 
@@ -345,6 +347,96 @@ func c04Case(rt *rapid.T, rec *vstat.Rec) {
 			m.rebuild("after load")
 		}
 	})
+	loadOnly := func() {
+		spec := g8aGenLoadSpec(m.rt)
+		p := filepath.Join(base, "load.db")
+		if err := g8aBuildDBFile(spec, p); err != nil {
+			m.rt.Skip("build load file")
+		}
+		stagedBefore := m.staged()
+		if err := g8aLoadFile(m.s, p); err != nil {
+			m.fail("C04/load-error", "load of a valid database failed: %v (%s)", err, spec)
+		}
+		if err := m.model.ReplaceWithFile(p); err != nil {
+			m.rt.Skip("model")
+		}
+		if stagedBefore > 0 {
+			m.resetAfterStaged = true
+		}
+		m.nLoads++
+		m.hist = append(m.hist, "LOAD"+spec.String())
+	}
+	// A snapshot in raft's own order (FSM.Snapshot on the FSM side; then, on
+	// raft's snapshot goroutine, Create sink / Persist / Close / Release) with a
+	// load or a write applied by the FSM while the snapshot is still being
+	// persisted - what happens when requests keep arriving during a long
+	// Persist. Index, term and configuration are those at FSM.Snapshot time, as
+	// raft takes them. (A boot is not placed in between: it takes a raft
+	// snapshot itself, and raft serialises snapshots.)
+	hsnapStep := guard(func() {
+		if rapid.Bool().Draw(m.rt, "loadFirst") {
+			loadOnly() // makes the snapshot that is about to be persisted a full one
+		} else {
+			m.write(rapid.Bool().Draw(m.rt, "big"))
+		}
+		if err := g8aBarrier(m.s, 20*time.Second); err != nil {
+			return
+		}
+		idx, term := m.s.fsmIdx.Load(), m.s.fsmTerm.Load()
+		cf := m.s.raft.GetConfiguration()
+		cfIdx := g8aConfigIndex(m.s)
+		if cf.Error() != nil || cfIdx == 0 || idx == 0 || idx < cfIdx {
+			return // raft itself would refuse to persist now
+		}
+		stagedBefore := m.staged()
+		fullBefore := m.s.numFullSnapshots
+		f, err := NewFSM(m.s).Snapshot()
+		if err != nil {
+			m.hist = append(m.hist, "HSNAP(fsm err)")
+			return
+		}
+		kind := "inc"
+		if m.s.numFullSnapshots > fullBefore {
+			kind = "full"
+		}
+		what := rapid.SampledFrom([]string{"load", "load", "write", "nothing"}).Draw(m.rt, "duringPersist")
+		m.hist = append(m.hist, "HSNAP-BEGIN("+kind+")")
+		switch what {
+		case "load":
+			loadOnly()
+		case "write":
+			m.write(false)
+		}
+		sink, err := m.s.snapshotStore.Create(1, idx, term, cf.Configuration(), cfIdx, m.s.raftTn)
+		if err != nil {
+			f.Release()
+			m.hist = append(m.hist, "HSNAP(create err)")
+			return
+		}
+		if err := f.Persist(sink); err != nil {
+			sink.Cancel()
+			m.hist = append(m.hist, "HSNAP-END(persist err)")
+		} else {
+			sink.Close()
+			m.nSnapOK++
+			m.nHandSnaps++
+			if what == "load" {
+				m.loadDuringPersist = true
+			}
+			if stagedBefore > 0 && kind == "inc" {
+				m.incWhileStaged = true
+			}
+			if stagedBefore > 0 && kind == "full" {
+				m.fullWhileStaged = true
+			}
+			m.hist = append(m.hist, fmt.Sprintf("HSNAP-END(ok,during=%s,staged %d->%d)", what, stagedBefore, m.staged()))
+		}
+		f.Release()
+		// follow-up: write, ordinary snapshot, rebuild from the store
+		m.write(rapid.Bool().Draw(m.rt, "big"))
+		m.snapshot(uint64(rapid.SampledFrom([]int{0, 1}).Draw(m.rt, "trailing")))
+		m.rebuild("after a snapshot with a " + what + " applied during persist, write, snapshot")
+	})
 	cycleStep := guard(func() {
 		// load, full snapshot, write, incremental snapshot: one rebuild at the end
 		spec := g8aGenLoadSpec(m.rt)
@@ -370,17 +462,19 @@ func c04Case(rt *rapid.T, rec *vstat.Rec) {
 		m.rebuild("after load, snapshot, write, snapshot")
 	})
 	rt.Repeat(map[string]func(*rapid.T){
-		"load-snap-write-snap":       cycleStep,
-		"write-small":                guard(func() { m.write(false) }),
-		"write-small-2":              guard(func() { m.write(false) }),
-		"write-big":                  guard(func() { m.write(true) }),
-		"snapshot":                   snapshotStep,
-		"snapshot-2":                 snapshotStep,
-		"snapshot-3":                 snapshotStep,
-		"membership-then-snapshot":   membershipStep,
-		"membership-then-snapshot-2": membershipStep,
-		"load":                       loadStep,
-		"load-2":                     loadStep,
+		"load-snap-write-snap":                 cycleStep,
+		"snapshot-with-apply-during-persist":   hsnapStep,
+		"snapshot-with-apply-during-persist-2": hsnapStep,
+		"write-small":                          guard(func() { m.write(false) }),
+		"write-small-2":                        guard(func() { m.write(false) }),
+		"write-big":                            guard(func() { m.write(true) }),
+		"snapshot":                             snapshotStep,
+		"snapshot-2":                           snapshotStep,
+		"snapshot-3":                           snapshotStep,
+		"membership-then-snapshot":             membershipStep,
+		"membership-then-snapshot-2":           membershipStep,
+		"load":                                 loadStep,
+		"load-2":                               loadStep,
 		"boot": guard(func() {
 			if len(m.nvs) > 0 {
 				return // boot is a single-node operation
@@ -444,7 +538,7 @@ func c04Case(rt *rapid.T, rec *vstat.Rec) {
 		joinKind = m.joinSecond(rapid.Bool().Draw(rt, "voter"))
 	}
 
-	nontrivial := m.incWhileStaged || (m.stagedRetained && (m.fullWhileStaged || m.resetAfterStaged))
+	nontrivial := m.incWhileStaged || (m.stagedRetained && (m.fullWhileStaged || m.resetAfterStaged)) || m.loadDuringPersist
 	rec.Case(nontrivial, strings.Join(m.hist, ";"))
 	if m.stagedRetained {
 		rec.Label("staged-wal-retained(persist-skipped)")
@@ -475,6 +569,12 @@ func c04Case(rt *rapid.T, rec *vstat.Rec) {
 	}
 	if m.nSkipped > 0 {
 		rec.Label("has-skipped-persist")
+	}
+	if m.nHandSnaps > 0 {
+		rec.Label("has-apply-during-persist")
+	}
+	if m.loadDuringPersist {
+		rec.Label("load-applied-during-snapshot-persist")
 	}
 	rec.Label("join-at-end:" + joinKind)
 	rec.LabelN("rebuilds", m.nRebuilds)
